@@ -30,6 +30,8 @@ STMT = re.compile(r'^\s*(?:Local\s+|Global\s+|#\[[^\]]*\]\s*)?(Theorem|Lemma|Exa
 STD_TRUSTED = [
     'Coq 8.16.1 kernel (coqc), vm_compute for evaluation; no native_compute',
     'py2coq translator (tools/vf/py2coq.py) and the numpy denotation coq/Lib/NumpyR.v (validated by the certified correspondence, not verified)',
+    'source normalisation (tools/vf/srcnorm.py): a function of the current source that is alpha-equivalent (bound names, docstrings, annotations, message texts) '
+    'to its counterpart in the committed reference snapshot tools/vf/refsrc is read by the translators in its reference spelling; every other function is read as it is',
     'Python harness (tools/vf): generators, canonicalisers, oracle capture by monkeypatching',
     'IEEE-754 rounding is not modelled in real-number theorems (bounded empirically by the interval-certified comparison)',
 ]
